@@ -756,6 +756,11 @@ class Executor:
                 for sub in test.values:
                     self.narrow_optional(sub, taken, env)
             return
+        if isinstance(test, ast.Compare) and isinstance(test.left, ast.NamedExpr) and isinstance(test.left.target, ast.Name):
+            # `(x := e) is not None`: narrow the name just bound
+            import copy as _copy
+            test = _copy.copy(test)
+            test.left = ast.Name(id=test.left.target.id, ctx=ast.Load())
         if isinstance(test, ast.Compare) and len(test.ops) == 1 and isinstance(test.left, ast.Name) and \
                 isinstance(test.comparators[0], ast.Constant) and test.comparators[0].value is None:
             notnone = taken if isinstance(test.ops[0], ast.IsNot) else (not taken) if isinstance(test.ops[0], ast.Is) else None
@@ -1279,6 +1284,13 @@ class Executor:
             return wrap(-as_int_term(v) - 1)
         raise Unsupported("unary op")
 
+    def e_NamedExpr(self, e, env):
+        v = self.eval(e.value, env)
+        if not isinstance(e.target, ast.Name):
+            raise Unsupported("walrus target")
+        env[e.target.id] = v
+        return v
+
     def e_IfExp(self, e, env):
         c = self.eval(e.test, env)
         t = self.truth(c)
@@ -1586,6 +1598,8 @@ class Executor:
         if isinstance(obj, PObj):
             if name in obj.fields:
                 return obj.fields[name]
+            if name == "__dict__":
+                return _ObjDict(obj)  # the instance dictionary: stores bypass __setattr__ / properties
             hook = self.ctx.getattr_hooks.get(obj.cls)
             if hook is not None:
                 r = hook(self, obj, name)
@@ -2483,6 +2497,26 @@ class Custom:
 
 class _SDictLike:
     """Interface for contract-provided symbolic maps."""
+
+
+class _ObjDict(Custom):
+    """obj.__dict__ of a record object: item access is raw field access"""
+
+    def __init__(self, obj):
+        self.obj = obj
+
+    def getitem(self, ex, idx, line):
+        if not isinstance(idx, str):
+            raise Unsupported("__dict__ with a symbolic key")
+        if idx not in self.obj.fields:
+            ex.safety(False, "KeyError", "instance-dict-key", line)
+            raise PathEnd()
+        return self.obj.fields[idx]
+
+    def setitem(self, ex, idx, v, line):
+        if not isinstance(idx, str):
+            raise Unsupported("__dict__ with a symbolic key")
+        self.obj.fields[idx] = v
 
 
 class _Sliceable:
